@@ -17,7 +17,7 @@ From Coq Require Import String.
 From Coq Require Import List Arith Bool.
 Import ListNotations.
 From YP Require Import Base.Str Term.Term Unify.Unify Engine.Frame Engine.World Engine.CursorFrame
-  Engine.Isolation Engine.Slots Engine.IsolationExamples.
+  Engine.Isolation Engine.Slots Engine.SlotsReach Engine.IsolationExamples.
 
 (* the initial world of any number of engines satisfies the invariant, and every step keeps it (see step_local) *)
 Theorem C04_init_world_inv : forall n, winv (init_world n).
@@ -149,6 +149,31 @@ Theorem C04_slots_start : forall fuel n i PQ q Pnew nm args e h e' h' ob,
 Proof. exact sinv_start. Qed.
 Print Assumptions C04_slots_start.
 
+(* ... and in every state an engine can reach: R n i e h = invariant of (engine record, heap): every held generator c has a
+   query number below the start counter, argument variables that are user cells of this engine, and holds terms over
+   PQc c (= the cells named after its query number + the variables of its arguments) only; generators in different slots
+   have different query numbers and no argument variable in common; every binding of a cell of this engine in the heap is
+   in the trail of a held generator.  EVERY operation keeps R, provided a start uses variables that do not occur in the
+   queries held in the other slots at that moment (op_ok / hist_ok); R gives sinv for the family read off the record. *)
+Theorem C04_reach_invariant : forall n i, i < n -> forall fuel ops e h e' h' bs,
+  R n i e h -> hist_ok n i fuel ops e h -> erun n i fuel ops e h = (e', h', bs) -> R n i e' h'.
+Proof. exact R_run. Qed.
+Print Assumptions C04_reach_invariant.
+
+Theorem C04_reach_sinv : forall n i, i < n -> forall e h, R n i e h -> sinv n i (PQ_of n i e) e h.
+Proof. exact R_sinv. Qed.
+Print Assumptions C04_reach_sinv.
+
+(* the last sentence of the property text, self-contained: a new engine, ANY history pre of operations of all kinds in
+   which queries are started over variables not occurring in the other queries held, then ANY sequence of next / close /
+   drain on the slots: what is observed on slot q is what is observed when only the operations on q are run *)
+Theorem C04_disjoint_queries_alone : forall n i, i < n -> forall fuel pre ops e h bs0 q,
+  hist_ok n i fuel pre init_engine [] -> erun n i fuel pre init_engine [] = (e, h, bs0) -> Forall qop ops ->
+  pick q ops (snd (erun n i fuel ops e h))
+  = snd (erun n i fuel (filter (is_slot q) ops) e (fP (PQ_of n i e q) h)).
+Proof. exact disjoint_queries_alone. Qed.
+Print Assumptions C04_disjoint_queries_alone.
+
 (* the same for two bare generators (cursors) over one database: every interleaving of their next() calls
    gives each the result sequence it has alone *)
 Theorem C04_same_engine_disjoint : forall (P1 P2 : nat -> bool) (f1 f2 : nat -> nat),
@@ -190,3 +215,12 @@ Example C04_nonvacuous_slots :
   /\ pick 1 xops (snd (erun 1 0 50 xops xe [])) = [xans "a"; xans "b"; otag "closed" []; otag "done" []]
   /\ snd (fst (erun 1 0 50 (firstn 2 xops) xe [])) <> [].
 Proof. exact ex_slots. Qed.
+
+(* non-vacuity of C04_disjoint_queries_alone: the history assert, assert, start p(X0), start p(X1) satisfies hist_ok and
+   reaches the engine xe of the previous example *)
+Example C04_nonvacuous_reach :
+  hist_ok 1 0 50 xprep init_engine [] /\ fst (fst (erun 1 0 50 xprep init_engine [])) = xe
+  /\ snd (fst (erun 1 0 50 xprep init_engine [])) = [] /\ Forall qop xops
+  /\ pick 0 xops (snd (erun 1 0 50 xops xe [])) = [xans "a"; xans "b"; otag "done" []]
+  /\ pick 1 xops (snd (erun 1 0 50 xops xe [])) = [xans "a"; xans "b"; otag "closed" []; otag "done" []].
+Proof. exact ex_reach. Qed.
